@@ -52,6 +52,22 @@ def values_with_refs_text(rng, doc):
     for p in doc.get("parameterDefinitions") or []:
         if p["type"] == "STRING" and p["name"] in vals and not any(k in p for k in ("allowedValues", "minLength", "maxLength")) and rng.random() < 0.4:
             vals[p["name"]] = rng.choice(["{{Param.Other}}", "{{ RawParam." + p["name"] + " }}", "}}{{", "a{{b", "x y", ""])
+    # numbers in another spelling of the same value (int() / Decimal() read them all): the Job must carry the text
+    # that was given, wherever it is substituted
+    for p in doc.get("parameterDefinitions") or []:
+        v = vals.get(p["name"])
+        if p["type"] in ("INT", "FLOAT") and isinstance(v, str) and rng.random() < 0.35:
+            m = _re.fullmatch(r"(-?)(\d+)", v.strip())
+            if m:
+                sign, digits = m.groups()
+                forms = [sign + "00" + digits, " " + v + " ", sign + digits + ("" if len(digits) < 2 else ""), ("+" + digits) if not sign else v]
+                if len(digits) >= 2:
+                    forms.append(sign + digits[0] + "_" + digits[1:])
+                if p["type"] == "FLOAT":
+                    forms += [v + ".0", v + ".00", v + "e0", sign + digits + "E+0"]
+                if digits.strip("0") == "":
+                    forms.append("-0" if p["type"] == "INT" else "-0.0")
+                vals[p["name"]] = rng.choice(forms)
     return vals
 
 
